@@ -1,14 +1,63 @@
 import ActixNet.Model.Lines
+import ActixNet.Model.Framed
 import Driver.Util
 /-! Engine `codec`: line protocol for the actix-codec models (C13 Framed read side, C14 Framed
 write side, C15 LinesCodec). -/
 namespace Driver.Codec
 open Driver ActixNet
 
+inductive CodecSel where | lines | bytes | len
+deriving DecidableEq, Repr
+
 structure State where
-  dummy : Nat := 0
+  sel : CodecSel := .lines
+  rs : Framed.RState := {}
 
 def init : State := {}
+
+def codecOf : CodecSel → Framed.Codec Framed.Bytes
+  | .lines => Framed.linesCodec
+  | .bytes => Framed.bytesCodec
+  | .len => Framed.lenCodec
+
+/-- largest chunk a scripted read may carry: never more than the room `Framed` guarantees -/
+def maxChunk : Nat := 1024
+
+/-- short byte strings in hex, long ones as `#<len>.<hash>` -/
+def showBytes (bs : List Nat) : String :=
+  if bs.length ≤ 24 then toHex bs
+  else s!"#{bs.length}.{bs.foldl (fun h b => (h * 31 + b) % 4294967296) 7}"
+
+def kindNames : List (String × Src.ErrorKind) :=
+  [("ConnectionReset", .ConnectionReset), ("BrokenPipe", .BrokenPipe), ("TimedOut", .TimedOut),
+   ("Other", .Other), ("UnexpectedEof", .UnexpectedEof), ("InvalidData", .InvalidData),
+   ("InvalidInput", .InvalidInput), ("WriteZero", .WriteZero), ("WouldBlock", .WouldBlock),
+   ("Interrupted", .Interrupted), ("ConnectionAborted", .ConnectionAborted), ("NotConnected", .NotConnected)]
+
+def parseKind (s : String) : Option Src.ErrorKind := (kindNames.find? (·.1 == s)).map (·.2)
+def kindStr (k : Src.ErrorKind) : String := ((kindNames.find? (·.2 == k)).map (·.1)).getD "?"
+
+def outStr : Framed.Out Framed.Bytes → String
+  | .item f => "item:" ++ showBytes f
+  | .decErr k => "derr:" ++ kindStr k
+  | .ioErr k => "ioerr:" ++ kindStr k
+  | .pending => "pending"
+  | .none => "none"
+  | .spin => "spin"
+
+/-- `d:<hex>` data chunk, `p` Pending, `e:<Kind>` I/O error, `z` end of file -/
+def parseRd (w : String) : Option Framed.Rd :=
+  if w == "p" then some .pending
+  else if w == "z" then some .eof
+  else if w.startsWith "d:" then
+    match parseHex (w.drop 2).toString with
+    | some bs => if bs.length ≤ maxChunk then some (.data bs) else none
+    | none => none
+  else if w.startsWith "e:" then (parseKind (w.drop 2).toString).map .ioErr
+  else none
+
+def rdCounters (rs : Framed.RState) : String :=
+  s!"rd={rs.nRead} dec={rs.nDecode} eofc={rs.nDecodeEof} buf={showBytes rs.buf}"
 
 /-! ## C15: LinesCodec on a contiguous buffer -/
 
@@ -27,9 +76,35 @@ def linesRun (s : List Nat) : String :=
 
 def parseAll (ws : List String) : Option (List (List Nat)) := ws.mapM parseHex
 
+def parseCase (ws : List String) : Option State :=
+  ws.foldlM (fun st w =>
+    if w == "codec=lines" then some { st with sel := .lines }
+    else if w == "codec=bytes" then some { st with sel := .bytes }
+    else if w == "codec=len" then some { st with sel := .len }
+    else if w.startsWith "codec=" then none
+    else some st) init
+
 def step (st : State) (line : String) : State × String :=
   match words line with
-  | "case" :: _ => (init, "ok")
+  | "case" :: _ :: cfg => match parseCase cfg with
+    | some st' => (st', "ok")
+    | none => (init, "bad-op")
+  | ["case"] => (init, "ok")
+  | "script" :: evs => match evs.mapM parseRd with
+    | some es =>
+      let rs := { st.rs with script := st.rs.script ++ es }
+      ({ st with rs := rs }, s!"ok {rs.script.length}")
+    | none => (st, "bad-op")
+  | ["poll"] =>
+    let (o, rs) := Framed.pollNext (codecOf st.sel) st.rs
+    ({ st with rs := rs }, s!"{outStr o} {rdCounters rs}")
+  | ["drain", n] => match n.toNat? with
+    | some n =>
+      if n ≤ 100000 then
+        let (os, rs) := Framed.pollN (codecOf st.sel) n st.rs
+        ({ st with rs := rs }, s!"[{",".intercalate (os.map outStr)}] {rdCounters rs}")
+      else (st, "bad-op")
+    | none => (st, "bad-op")
   | ["dec", h] => match parseHex h with
     | some bs => (st, linesRun bs)
     | none => (st, "bad-op")
